@@ -7,6 +7,16 @@ from typing import TYPE_CHECKING, Any
 if TYPE_CHECKING:
     import attrs
 
+
+def _describe(value: Any) -> str:
+    # Formatting the rejected value must not replace the error that is being
+    # reported (e.g. an int beyond the interpreter's int-to-str digit limit).
+    try:
+        return f"{value}"
+    except Exception:
+        return f"<{type(value).__name__}>"
+
+
 INTEGER_MIN_VALUE = -(2**31)
 INTEGER_MAX_VALUE = 2**31 - 1
 
@@ -22,7 +32,7 @@ def integer_validator(
     ):
         name = attribute.name if hasattr(attribute, "name") else str(attribute)
         raise ValueError(
-            f"{instance.__class__.__qualname__}.{name} should be in range [{INTEGER_MIN_VALUE}:{INTEGER_MAX_VALUE}], but was {value}."
+            f"{instance.__class__.__qualname__}.{name} should be in range [{INTEGER_MIN_VALUE}:{INTEGER_MAX_VALUE}], but was {_describe(value)}."
         )
     return True
 
@@ -42,6 +52,6 @@ def uinteger_validator(
     ):
         name = attribute.name if hasattr(attribute, "name") else str(attribute)
         raise ValueError(
-            f"{instance.__class__.__qualname__}.{name} should be in range [{UINTEGER_MIN_VALUE}:{UINTEGER_MAX_VALUE}], but was {value}."
+            f"{instance.__class__.__qualname__}.{name} should be in range [{UINTEGER_MIN_VALUE}:{UINTEGER_MAX_VALUE}], but was {_describe(value)}."
         )
     return True
